@@ -62,4 +62,19 @@ def versionFor (net : String) (isPrivate : Bool) (witnessType : String) (multisi
   | none => none
   | some n => (n.wifs.find? fun w => w.isPrivate == isPrivate && w.witnessType == witnessType && w.multisig == multisig).map (·.version)
 
+/-- is the key field of the kind the version bytes announce: 00 ‖ secret under private versions, a compressed public key (02 / 03 ‖ x)
+under public ones -/
+def keyFieldOk (isPrivate : Bool) (keyData : Bytes) : Bool :=
+  if isPrivate then keyData.headD 1 == 0 else (keyData.headD 0 == 2 || keyData.headD 0 == 3)
+
+/-- extended-key import: Base58Check, 78-byte payload, version bytes of the table, key field of the announced kind -/
+def xkeyImport (H : Bytes → Bytes) (s : List Char) : Option XKeyData :=
+  match xkeyDec H s with
+  | none => none
+  | some k =>
+    let ents := versionEntries k.version
+    if ents.isEmpty then none
+    else if ents.all (fun e => keyFieldOk e.2.isPrivate k.keyData) then some k
+    else none
+
 end Btc
